@@ -155,6 +155,13 @@ def run(ctx):
         extra.append({"seed": ctx.seed, "jitter": 0.0, "poll": 0.03, "payloads": {"f": {"flavour": ff}, "t1": {"flavour": "trio", "cleanup": 1, "shielded": 8}, "a1": {"flavour": "asyncio", "cleanup": 1}},
                       "script": [{"op": "adopt", "p": "f"}, {"op": "adopt", "p": "t1"}, {"op": "adopt", "p": "a1"}, {"op": "accept"}, {"op": "wait_running"}, {"op": "wait_start", "p": "f"}, {"op": "wait_start", "p": "t1"}, {"op": "wait_start", "p": "a1"},
                                  {"op": "end", "p": "f", "how": "exc:UserExc"}, {"op": "sleep", "ms": 80}, {"op": "sigint", "force": True}, {"op": "wait_end", "timeout": 4.0}], "shape": "targeted-failure-then-sigint-while-closing"})
+    # an outside thread adopts a payload of a busy coroutine flavour, the busy payload adopts
+    # too, and then a payload fails: the run still ends by raising
+    for ff in ("trio", "asyncio"):
+        extra.append({"seed": ctx.seed, "jitter": 0.0, "payloads": {"f": {"flavour": "threading"}, "c1": {"flavour": ff}, "late": {"flavour": ff}, "late2": {"flavour": ff}},
+                      "script": [{"op": "adopt", "p": "f"}, {"op": "adopt", "p": "c1"}, {"op": "accept"}, {"op": "wait_running"}, {"op": "wait_start", "p": "f"}, {"op": "wait_start", "p": "c1"},
+                                 {"op": "seg", "p": "c1", "hold": 0.4, "adopt_after": "late2", "nowait": True}, {"op": "sleep", "ms": 120}, {"op": "adopt", "p": "late", "ctx": "thread"},
+                                 {"op": "sleep", "ms": 400}, {"op": "end", "p": "f", "how": "exc:UserExc"}, {"op": "wait_end", "timeout": 4.0}], "shape": "targeted-failure-after-crossed-adoptions"})
     scen.run_family(ctx, sh, names=NAMES, allow=(), extra_scenarios=extra, mc_invariants=["FailStopSafe", "CauseFaithful", "InterruptEndsQuietly", "AtMostOnce", "CleanupBeforeEnd"], mc_properties=["FailStopLive"], per_shape=16 if thorough else 6, depth=40, label="c01")
     ctx.extra["rule"] = "shapes = failing flavour x failure kind (non-None value incl. falsy ones / Exception / BaseException / KeyboardInterrupt) x registration time (queued, adopted from a thread or from a payload of each flavour, service created before or after start) with bystanders of all flavours; per shape TLC-simulated behaviours projected to the controllable actions; distinct non-trivial = distinct (shape, sequence of starts/ends/cancellations/returns observed)"
     ctx.assumptions = [
